@@ -179,11 +179,9 @@ def removeStep (ix : Ix) (d : Nat) (s : Costs) (i : Nat) : Costs :=
   let old := s.cons.getD i default
   let new := sliceCon ix d old
   let fred := new.involved.foldl (updFred s.sizeDict old.flops d) s.fred
-  let (mxs, wred) :=
-    if old.legs.contains ix then
-      ((s.mxsizes.discard old.size).add new.size,
-       new.legs.foldl (updWred s.sizeDict old.size d) s.wred)
-    else (s.mxsizes, s.wred)
+  let mxs := if old.legs.contains ix then (s.mxsizes.discard old.size).add new.size else s.mxsizes
+  let wred := if old.legs.contains ix then new.legs.foldl (updWred s.sizeDict old.size d) s.wred
+              else s.wred
   { s with cons := s.cons.set i new,
            flops := s.flops + ((new.flops : Int) - (old.flops : Int)),
            mxsizes := mxs, fred := fred, wred := wred }
